@@ -138,6 +138,8 @@ def _exact_len(ctx, args, ck):
 
 def iter_len(ctx, it):
     it = ctx.m.peel(it)
+    if isinstance(it, BoxObj):
+        return iter_len(ctx, it.fields[0])
     if isinstance(it, (ListIter, SliceIter)):
         return Int(it.remaining(), 'usize')
     if isinstance(it, Struct) and it.ty == 'Range':
